@@ -53,7 +53,7 @@ def gen_term(rng, fock=False):
     from adcgen.indices import Index, get_symbols
     names = ["V", "t1", "t2", "Y", "d0", "c"] + (["f"] if fock else [])
     g = TermGen(rng, spaces="ov", n_tensors=(1, 3), max_contracted=4, max_target=3,
-                names=names, exclude=(), pool_size=5)
+                names=names, exclude=(), pool_size=5, exponents=0.25 if fock else 0.0)
     rem = g.term()
     idx = sorted(rem.atoms(Index), key=lambda s: s.name)
     occ = [s for s in idx if s.space == "occ"]
@@ -190,7 +190,7 @@ def run_case(item):
                     chain = S.One
                     for q in range(k):
                         a_, b_ = (ch[q], ch[q + 1]) if rng.random() < 0.5 else (ch[q + 1], ch[q])
-                        chain *= AntiSymmetricTensor("f", (a_,), (b_,))
+                        chain *= AntiSymmetricTensor("f", (a_,), (b_,)) ** rng.choice([1, 1, 1, 2])
                     if rng.random() < 0.5:
                         chain *= NonSymmetricTensor("c", (ch[0], ch[-1]))      # closed: all contracted
                     else:
